@@ -1,0 +1,42 @@
+//go:build verif
+
+package pop3
+
+import (
+	"fmt"
+	"net"
+	"runtime/debug"
+
+	"github.com/rs/zerolog"
+)
+
+// Verification hooks (build tag `verif` only): run one real session of a Server on a caller supplied
+// connection, exactly as serve() does for an accepted connection.
+
+// VerifSession reports how a session started by VerifStartSession ended.
+type VerifSession struct {
+	// Done is closed when startSession has returned (or panicked).
+	Done chan struct{}
+	// Panic holds the recovered panic value and stack if startSession panicked, else "".
+	Panic string
+}
+
+// VerifStartSession does what serve() does after Accept: s.wg.Add(1); go s.startSession(id, conn).
+// A panic of the session goroutine is recovered and reported instead of killing the process.
+func (s *Server) VerifStartSession(id int, conn net.Conn) *VerifSession {
+	vs := &VerifSession{Done: make(chan struct{})}
+	s.wg.Add(1)
+	go func() {
+		defer close(vs.Done)
+		defer func() {
+			if r := recover(); r != nil {
+				vs.Panic = fmt.Sprintf("%v\n%s", r, debug.Stack())
+			}
+		}()
+		s.startSession(id, conn)
+	}()
+	return vs
+}
+
+// VerifQuietLogs silences zerolog (the session logs every command).
+func VerifQuietLogs() { zerolog.SetGlobalLevel(zerolog.Disabled) }
